@@ -13,6 +13,7 @@ package main
 import (
 	"bytes"
 	"compress/gzip"
+	"encoding/hex"
 	"fmt"
 	"io"
 	"os"
@@ -31,6 +32,7 @@ type cdcTruncCase struct {
 	Others  []cdcCodecCase `json:"others"` // one small case per other kind (cross matrix)
 	Seed    uint64         `json:"seed"`
 	Segment bool           `json:"segment"`
+	Hung    bool           `json:"hung,omitempty"` // set by Exec when a read did not return: the case is not shrunk (every re-run costs the deadline)
 	Thor    bool           `json:"thor"`
 }
 
@@ -277,20 +279,36 @@ func cdcExecTrunc(c *cdcTruncCase) []string {
 	// every prefix
 	r := core.NewRand(c.Seed, "trunc")
 	lens := cdcPrefixLengths(r, len(stream), bounds, c.Thor)
-	for i := 0; i < len(lens); {
+	guard := &cdcGuard{}
+	defer guard.close()
+	pouts, pmsgs := guard.prefixes(c.P, stream, lens)
+	stopped := false
+	for i := 0; i < len(pouts); {
 		j := i
 		var out []byte
-		for j < len(lens) && j-i < 256 && lens[j] == lens[i]+(j-i) {
-			o, _, msg := cdcReadOutcome(c.P, stream[:lens[j]])
+		for j < len(pouts) && j-i < 256 && lens[j] == lens[i]+(j-i) {
+			o := pouts[j]
 			if o == 'p' {
-				lines = append(lines, fmt.Sprintf("op panic ReadFrom of prefix %d/%d: %s", lens[j], len(stream), msg))
+				lines = append(lines, fmt.Sprintf("op panic ReadFrom of prefix %d/%d: %s", lens[j], len(stream), pmsgs[j]))
+				if pmsgs[j] == cdcCrashMsg {
+					stopped = true
+				}
 				o = 'e'
+			}
+			if o == 'h' {
+				stopped = true
+				c.Hung = true
 			}
 			out = append(out, o)
 			j++
 		}
 		lines = append(lines, fmt.Sprintf("op prefixes %d %d => %s", lens[i], lens[i]+(j-i), out))
 		i = j
+	}
+	if stopped {
+		// a read crashed the process or did not return: the case ends here (every further
+		// read of this stream would cost the deadline again)
+		return append(lines, "end")
 	}
 
 	// kind x kind, one construction parameter differs, another format version: a reader
@@ -329,17 +347,22 @@ func cdcExecTrunc(c *cdcTruncCase) []string {
 			fmts = append(fmts, fmt.Sprintf("op version %d %s", v, cdcHexB(b)))
 		}
 	}
-	outs, msgs := cdcGuardedReads(jobs)
 	for i := range jobs {
-		if outs[i] == 'p' {
-			lines = append(lines, "op panic ReadFrom ("+strings.Join(strings.Fields(fmts[i])[1:3], " ")+"): "+msgs[i])
+		b, _ := hex.DecodeString(jobs[i].B)
+		o, msg := guard.read(jobs[i].P, b)
+		if o == 'p' {
+			lines = append(lines, "op panic ReadFrom ("+strings.Join(strings.Fields(fmts[i])[1:3], " ")+"): "+msg)
 			continue
 		}
-		lines = append(lines, fmt.Sprintf("%s => %c", fmts[i], outs[i]))
+		lines = append(lines, fmt.Sprintf("%s => %c", fmts[i], o))
+		if o == 'h' {
+			c.Hung = true
+			return append(lines, "end")
+		}
 	}
 
 	if c.Segment {
-		lines = append(lines, cdcSegmentOps(c, r, stream, four)...)
+		lines = append(lines, cdcSegmentOps(c, r, guard, stream, four)...)
 	}
 	return append(lines, "end")
 }
@@ -381,47 +404,53 @@ func cdcIdSet(res []comet.HybridSearchResult, err error) string {
 }
 
 type cdcSegProbe struct {
-	vec  []float32
-	text string
+	Vec  []float32 `json:"vec,omitempty"`
+	Text string    `json:"text,omitempty"`
 }
 
 // cdcProbeStore reopens the store with fresh templates and asks, after a warm-up search, a
 // vector-only, a text-only and a metadata-only query.
-func cdcProbeStore(dir string, p cdcCparams, pr cdcSegProbe) (v, t, m string, perr string) {
+func cdcProbeStore(dir string, p cdcCparams, pr cdcSegProbe) (v, t, m, cached string, perr string) {
 	defer func() {
 		if r := recover(); r != nil {
 			perr = fmt.Sprint(r)
 		}
 	}()
-	v, t, m = "-", "-", "-"
+	v, t, m, cached = "-", "-", "-", "0"
 	cfg, err := cdcStoreConfig(dir, p)
 	if err != nil {
-		return v, t, m, err.Error()
+		return v, t, m, cached, err.Error()
 	}
 	s, err := comet.OpenPersistentHybridIndex(cfg)
 	if err != nil {
-		return v, t, m, "open: " + err.Error()
+		return v, t, m, cached, "open: " + err.Error()
 	}
 	defer s.Close()
 	// warm-up: the first search is what triggers the segment load
 	if p.Txt {
-		s.NewSearch().WithText(pr.text).WithK(1000).Execute()
+		s.NewSearch().WithText(pr.Text).WithK(1000).Execute()
 	} else if p.hasVec() {
-		s.NewSearch().WithVector(pr.vec).WithK(1000).Execute()
+		s.NewSearch().WithVector(pr.Vec).WithK(1000).Execute()
 	} else if p.Md {
 		s.NewSearch().WithMetadata(comet.Exists("c")).WithK(1000).Execute()
 	}
 	if p.hasVec() {
-		v = cdcIdSet(s.NewSearch().WithVector(pr.vec).WithK(1000).Execute())
+		v = cdcIdSet(s.NewSearch().WithVector(pr.Vec).WithK(1000).Execute())
 	}
 	if p.Txt {
-		t = cdcIdSet(s.NewSearch().WithText(pr.text).WithK(1000).Execute())
+		t = cdcIdSet(s.NewSearch().WithText(pr.Text).WithK(1000).Execute())
 	}
 	if p.Md {
 		m = cdcIdSet(s.NewSearch().WithMetadata(comet.Exists("c")).WithK(1000).Execute())
 	}
 	if v == "ERR" || t == "ERR" || m == "ERR" {
 		perr = "a search over the store returned an error"
+	}
+	// was the segment accepted (loaded and cached) by one of the searches?
+	for _, seg := range s.VerifState().Segments {
+		if seg.Cached {
+			cached = "1"
+		}
 	}
 	return
 }
@@ -437,7 +466,7 @@ func cdcDelivered(b []byte) (hdr bool, n int) {
 	return true, int(k)
 }
 
-func cdcSegmentOps(c *cdcTruncCase, r *core.Rand, stream []byte, four [][]byte) (lines []string) {
+func cdcSegmentOps(c *cdcTruncCase, r *core.Rand, guard *cdcGuard, stream []byte, four [][]byte) (lines []string) {
 	base, err := os.MkdirTemp("", "verif_seg")
 	if err != nil {
 		return []string{"op panic tempdir: " + err.Error()}
@@ -460,8 +489,8 @@ func cdcSegmentOps(c *cdcTruncCase, r *core.Rand, stream []byte, four [][]byte) 
 			var v []float32
 			if c.P.hasVec() && len(cmd.Vec) > 0 {
 				v = core.FromBits(cmd.Vec)
-				if pr.vec == nil {
-					pr.vec = append([]float32(nil), v...)
+				if pr.Vec == nil {
+					pr.Vec = append([]float32(nil), v...)
 				}
 			}
 			text := ""
@@ -480,16 +509,16 @@ func cdcSegmentOps(c *cdcTruncCase, r *core.Rand, stream []byte, four [][]byte) 
 			s.Remove(cmd.ID)
 		}
 	}
-	pr.text = "alpha"
+	pr.Text = "alpha"
 	best := 0
 	for w, n := range words {
-		if n > best || (n == best && w < pr.text) {
-			pr.text, best = w, n
+		if n > best || (n == best && w < pr.Text) {
+			pr.Text, best = w, n
 		}
 	}
-	if pr.vec == nil && c.P.hasVec() {
-		pr.vec = make([]float32, c.P.Dim)
-		pr.vec[0] = 1
+	if pr.Vec == nil && c.P.hasVec() {
+		pr.Vec = make([]float32, c.P.Dim)
+		pr.Vec[0] = 1
 	}
 	s.VerifRotate()
 	if err := s.Flush(); err != nil {
@@ -520,7 +549,10 @@ func cdcSegmentOps(c *cdcTruncCase, r *core.Rand, stream []byte, four [][]byte) 
 	}
 	// the segment's own (concatenated, gunzipped) stream is what the driver decodes
 	lines = append(lines, "op stream "+cdcHexB(segStream))
-	av, at, am, perr := cdcProbeStore(dir, c.P, pr)
+	av, at, am, _, perr, pst := guard.probe(dir, c.P, pr)
+	if pst != "" {
+		return append(lines, "op panic intact store: searching it "+pst)
+	}
 	if perr != "" {
 		return append(lines, "op panic intact store: "+perr)
 	}
@@ -563,12 +595,20 @@ func cdcSegmentOps(c *cdcTruncCase, r *core.Rand, stream []byte, four [][]byte) 
 				os.WriteFile(paths[i], orig[i][:k], 0o644)
 				hdr, d = cdcDelivered(orig[i][:k])
 			}
-			v, t, m, perr := cdcProbeStore(dir, c.P, pr)
-			if perr != "" {
+			v, t, m, cached, perr, pst := guard.probe(dir, c.P, pr)
+			if pst == "hang" {
+				// opening / searching the store with the damaged segment did not return
+				c.Hung = true
+				lines = append(lines, fmt.Sprintf("op segment %d %s %d %d %d %d %d => hang cut=%d/%d", i, cdcB01(hdr), d, lens[0], lens[1], lens[2], lens[3], k, n))
+				os.WriteFile(paths[i], orig[i], 0o644)
+				return lines
+			} else if pst != "" {
+				lines = append(lines, fmt.Sprintf("op panic store with %s file cut at %d/%d: the searching process %s", names[i], k, n, pst))
+			} else if perr != "" {
 				lines = append(lines, fmt.Sprintf("op panic store with %s file cut at %d/%d: %s", names[i], k, n, perr))
 			} else {
-				lines = append(lines, fmt.Sprintf("op segment %d %s %d %d %d %d %d => vec=%s txt=%s md=%s all=%s cut=%d/%d",
-					i, cdcB01(hdr), d, lens[0], lens[1], lens[2], lens[3], v, t, m, all, k, n))
+				lines = append(lines, fmt.Sprintf("op segment %d %s %d %d %d %d %d => vec=%s txt=%s md=%s all=%s cached=%s cut=%d/%d",
+					i, cdcB01(hdr), d, lens[0], lens[1], lens[2], lens[3], v, t, m, all, cached, k, n))
 			}
 		}
 		os.WriteFile(paths[i], orig[i], 0o644)
@@ -598,7 +638,12 @@ func init() {
 		},
 		GenF:  cdcGenTrunc,
 		ExecF: cdcExecTrunc,
-		LenF:  func(c *cdcTruncCase) int { return len(c.Cmds) },
+		LenF: func(c *cdcTruncCase) int {
+			if c.Hung { // not shrunk: every re-run would wait for the deadline again
+				return 0
+			}
+			return len(c.Cmds)
+		},
 		DropF: func(c *cdcTruncCase, lo, hi int) *cdcTruncCase {
 			n := *c
 			n.Cmds = append(append([]cdcCcmd(nil), c.Cmds[:lo]...), c.Cmds[hi:]...)
